@@ -1,4 +1,5 @@
 import Skc.Model.Scalers
+import Skc.Model.Electre
 import Skc.Proofs.Num
 set_option linter.unusedSectionVars false
 /-! Lemmas shared by the tie theorems: how the NumPy encodings of objectives (`±1`) and of "is zero" read in an ordered field. -/
@@ -24,5 +25,19 @@ theorem isZero_eq (x : α) : Scalers.isZero x = decide (x = 0) := by
   · simp [h, h.ne]
   · simp [h]
   · simp [h, h.ne', not_lt.mpr h.le]
+
+/-- `_conc_row`'s mask, with objectives encoded as `±1` -/
+theorem conc_mask_eq (x : Obj) (p q : α) :
+    (decide ((x.sgn : α) = 1) && decide (0 ≤ p - q) || decide ((x.sgn : α) = -1) && decide (p - q ≤ 0)) = Electre.concMask x p q := by
+  have h1 : (1 : α) ≠ -1 := one_ne_neg_one
+  have h2 : (-1 : α) ≠ 1 := fun h => h1 h.symm
+  cases x <;> simp [Obj.sgn, Electre.concMask, h1, h2, sub_nonneg]
+
+/-- `_disc_row`'s mask -/
+theorem disc_mask_eq (x : Obj) (p q : α) :
+    (decide ((x.sgn : α) = 1) && decide (0 < q - p) || decide ((x.sgn : α) = -1) && decide (q - p < 0)) = Electre.discMask x p q := by
+  have h1 : (1 : α) ≠ -1 := one_ne_neg_one
+  have h2 : (-1 : α) ≠ 1 := fun h => h1 h.symm
+  cases x <;> simp [Obj.sgn, Electre.discMask, h1, h2, sub_pos, sub_neg]
 
 end Skc.Tie
